@@ -61,8 +61,7 @@ def model_asis_and_behaviours(ctx, quick, rnd, states):
 
     # ------------------------------------------------------------------ 3. behaviours (arrival orders)
     nbeh = 120 if quick else 1200
-    g = gen_cfg(ctx, "sim.cfg", "C_sim", "TO3", False, "EmitBeh", maxlen=14, view=False, constraint="HistBound")
-    r = ctx.tlc("VoteSummaryMC", "sim.cfg", timeout=900, copy={g: "sim.cfg"}, workers=4,
+    r = ctx.tlc("VoteSummaryMC", "VoteSummary_emit.cfg", timeout=900, workers=4,
                 simulate="num=%d" % max(2, nbeh // 40), depth=16, extra=["-seed", str(ctx.seed)])
     behs = ctx.tlc_emitted(r)
     rnd.shuffle(behs)
@@ -87,8 +86,11 @@ def run(ctx):
         runs = []
     states = []
     for i, (cfgs, to, inv, emit) in enumerate(runs):
-        g = gen_cfg(ctx, "mc%d.cfg" % i, cfgs, to, False, inv + (" EmitState" if emit else ""))
-        r = ctx.tlc("VoteSummaryMC", "mc%d.cfg" % i, timeout=3000, copy={g: "mc%d.cfg" % i}, heap="8g")
+        if quick:
+            r = ctx.tlc("VoteSummaryMC", "VoteSummary_mc.cfg", timeout=3000, heap="8g")   # spec/VoteSummary_mc.cfg is this instance
+        else:
+            g = gen_cfg(ctx, "mc%d.cfg" % i, cfgs, to, False, inv + (" EmitState" if emit else ""))
+            r = ctx.tlc("VoteSummaryMC", "mc%d.cfg" % i, timeout=3000, copy={g: "mc%d.cfg" % i}, heap="8g")
         st = ctx.tlc_emitted(r)
         ctx.log("TLC design %s/%s: %d distinct states, %d generated, %.0fs; invariants hold (%s); %d states exported"
                 % (cfgs, to, r["distinct"], r["states"], r["wall"], inv, len(st)))
@@ -184,12 +186,16 @@ def run(ctx):
     # ------------------------------------------------------------------ 6. code -> spec: trace validation
     tv, ntrace, nviol_tlc = 0, 0, 0
     parts = {n: {x["i"]: x for x in vlib.read_ndjson(res[n][2]["VERIF_TRACE"]) if "i" in x} for n in pkgs}
-    events = []
+    events, incomplete = [], False
     for i in sorted(parts["tmconsensus"]):
         e = dict(parts["tmconsensus"][i])
         e.pop("i")
         if e["op"] != "reset":
             if i not in parts["tmi"] or i not in parts["tsi"]:
+                # one harness recorded nothing for this event (a recovered panic, already reported)
+                if ctx.violations:
+                    incomplete = True
+                    break
                 raise vlib.Inconclusive("trace parts disagree at event %d" % i)
             e["obs"]["dist"] = parts["tmi"][i]["dist"]
             e["obs"]["step"] = parts["tsi"][i]["step"]
@@ -252,6 +258,8 @@ def run(ctx):
                 if not tmis:
                     variant = "asis" if dc else "fixed"
                     break
+        elif incomplete:
+            ctx.log("trace incomplete (a harness panicked, reported above): trace validation skipped")
         elif variant is not None or ctx.violations:
             # validate against the variant the code implements; when undecided (a mutation), against the tree as it is
             dc = variant != "fixed"
